@@ -93,6 +93,8 @@ def setup(fast_poll=True):
     # thread hand-offs between the event loop, executor threads and the chunk producer otherwise wait
     # for the 5 ms GIL switch interval; only timing changes
     sys.setswitchinterval(0.0005)
+    import logging
+    logging.getLogger('asyncio').setLevel(logging.CRITICAL)      # 'exception was never retrieved' noise of cancelled leftovers
     _setup_done = True
 
 
